@@ -86,6 +86,8 @@ ASSUMPTIONS = ["settings.background.instant_exit_timeout is None (the default): 
                "clock passes them) is a hypothesis of paused_daemon_is_cancelled: asyncio fires due timers; CPU starvation is out of scope"]
 
 F1_SIG = {"site": "daemons._timer", "shape": "idle-only timer spins without suspending after its stopper is set"}
+F13_SIG = {"site": "processing.process_spawning_cause",
+           "shape": "daemon/timer (re)spawned by a worker while the operator is exiting: never asked to stop"}
 F12_SIG = {"site": "daemons._timer / daemons._daemon",
            "shape": "non-awaiting async handler retried with zero delay: the retry loop never yields to the event loop"}
 F11_SIG = {"site": "daemons.daemon_killer",
@@ -758,8 +760,43 @@ def gen_exit_race_scenario(rng: Any, seed: int) -> dict:
             "settings": {}, "flavour": "exit-race"}
 
 
+def gen_exit_depletion_scenario(rng: Any, seed: int) -> dict:
+    """The operator is asked to stop while a change handler of the object is in flight and more events of the object
+    are queued behind it: the watchers deplete their queues AFTER the daemon killer's exit sweep, so the worker still
+    runs `process_spawning_cause` for an object whose daemons have just been stopped (or were never started)."""
+    handlers: list[dict] = []
+    for k in range(rng.choice([1, 1, 2])):
+        opts: dict[str, Any] = {}
+        if rng.random() < 0.5:
+            opts["cancellation_timeout"] = rng.choice([0.5, 1.0])
+        if rng.random() < 0.3:
+            opts["cancellation_backoff"] = 0.5
+        handlers.append({"kind": rng.choice(["daemon", "daemon", "timer"]), "id": f"x{k}", "opts": opts})
+        if handlers[-1]["kind"] == "daemon":
+            handlers[-1]["daemon"] = {"mode": rng.choice(["obey", "cancel", "obey"]), "after": 2.0}
+        else:
+            handlers[-1]["opts"] = {"interval": 1.0}
+            handlers[-1]["tcfg"] = "interval"
+    dur = rng.choice([1.0, 1.5, 2.5])
+    handlers += [{"kind": "create", "id": "c1"}, {"kind": "update", "id": "u1", "default": ["sleep", dur, "ok"]}]
+    t = rng.choice([3.0, 4.0, 6.0])
+    tl: list[list] = [[1.0, "create", "a", {"spec": {"x": 0}}],
+                      [t - 0.5, "edit", "a", {"spec": {"x": 1}}]]
+    if rng.random() < 0.8:
+        tl.append([t - 0.25, "edit", "a", {"spec": {"x": 2}}])
+    if rng.random() < 0.3:
+        tl.append([t - 1.0 / 64, "create", "b", {"spec": {"x": 0}}])
+    tl.append([t, "stop"])
+    tl.append([t + 12.0, "start"])
+    return {"runner": RUNNER, "seed": seed, "handlers": handlers, "timeline": tl, "end": t + 16.0, "settings": {},
+            "flavour": "exit-depletion"}
+
+
 def gen_scenario(rng: Any, seed: int) -> dict:
     r = rng.random()
+    if r < 0.06:
+        return gen_exit_depletion_scenario(rng, seed)
+    r = (r - 0.06) / 0.94
     if r < 0.2:
         return gen_pause_scenario(rng, seed)
     if r < 0.3:
@@ -1183,7 +1220,10 @@ def oracle(ctx: Ctx, sc: dict, res: dict) -> dict:
             continue
         if i["how"] == "stop" and i.get("result") != "None":
             fail(f"the operator raised on exit: {i.get('result')}", {"site": "running.operator", "shape": "operator raised on exit"})
-    if dead_ops and not killer_crash:
+    last_how = {}
+    for n in sorted(incs):
+        last_how = {"how": incs[n]["how"]}          # the latest incarnation decides
+    if dead_ops and not killer_crash and last_how.get("how") is None:
         fail(f"operator {dead_ops} is not alive at the end of the history", {"site": "running.operator", "shape": "operator died"})
     for ce in tr.get("cycle_errors", []):
         if ce["error"] != "CancelledError":
@@ -1393,6 +1433,16 @@ def oracle(ctx: Ctx, sc: dict, res: dict) -> dict:
                     ctx.count("stages", "abandoned after timeout")
             if "DAEMON_SIGNALLED" in e["reason"]:
                 ctx.count("stages", "signalled")
+    # ---- O10: nothing is (re)started for an operator that is exiting — or, if it is, it is asked to stop like the rest ------
+    for i in inst.values():
+        iv = incs.get(i["inc"])
+        if iv is None or iv["how"] != "stop" or iv.get("stop_done") is None or hs.get(i["hid"]) is None:
+            continue
+        if iv["until"] < i["t_spawn"] <= iv["stop_done"] and t_end(i) > i["t_spawn"] + DELTA:
+            if flagged_by(i, None, i["t_spawn"] + DELTA) is None:
+                fail(f"{i['hid']} of {i['uid']} (instance {i['sid']}) was started at t={i['t_spawn']}, after the operator was asked "
+                     f"to stop at t={iv['until']} (the daemon killer's exit sweep was over), and was never asked to stop: it ran until "
+                     f"t={i['t_end']} (cancelled as a hung task)", dict(F13_SIG), sid=i["sid"])
     # ---- O8: when the operator pauses or exits the stages are actually gone through, whoever set the flag: a daemon that ----
     #      keeps running is cancelled within backoff (+ one killer period, 1 s, while paused) of the flag and abandoned
     #      within backoff + timeout (+ period). While paused nothing but the killer's rounds can do that.
